@@ -100,9 +100,9 @@ PROBE_RULES = {
     "set_data_collision_refused": ("set_data", "refused"),
     "set_data_no_decision_refused": ("no-decision", "refused"),
     "del_ambiguous_refused": ("del/ambiguous", "refused"),
-    "filter_select": ("SEL", "ok"),
-    "filter_skip_self": ("SKself", "ok"),
-    "filter_stop": ("STOP", "ok"),
+    "filter_select": (("filter", "SEL"), "ok"),
+    "filter_skip_self": (("filter", "SKself"), "ok"),
+    "filter_stop": (("filter", "STOP"), "ok"),
     "sort_deep": ("sort/deep", "ok"),
     "restart_file": ("restart/file", "ok"),
     "restart_dict": ("restart/dict", "ok"),
@@ -111,8 +111,8 @@ PROBE_RULES = {
     "copy_filtered": ("copy/filtered", "ok"),
     "copy_to": ("copy_to", "ok"),
     "callback_fault_fired": (None, "fault"),
-    "visit_skip": ("SKIP", "ok"),
-    "visit_stop": ("STOP", "ok"),
+    "visit_skip": (("visit/", "SKIP"), "ok"),
+    "visit_stop": (("visit/", "STOP"), "ok"),
     "iter_zigzag": ("iter/zigzag", "ok"),
     "iter_random": ("iter/random", "ok"),
     "read_save_stream": ("read/save_stream", "ok"),
@@ -151,7 +151,8 @@ def history_block(start, stop, *, prop, tier, base_seed, avoid_patterns=(),
             if outcome == "refused" and exc:
                 agg.refusals[exc] = agg.refusals.get(exc, 0) + 1
             for name, (sub, oc) in PROBE_RULES.items():
-                if (sub is None or sub in trigger) and (oc is None or oc == outcome):
+                subs = () if sub is None else ((sub,) if isinstance(sub, str) else sub)
+                if all(x in trigger for x in subs) and (oc is None or oc == outcome):
                     agg.probes[name] = agg.probes.get(name, 0) + 1
                     probe_fired = True
         for cb, n in r.fault_fired.items():
